@@ -102,6 +102,135 @@ def taint_rule(res, fx, rule='TAINT'):
     return eng
 
 
+def loop_modified_vars(f, body):
+    """declaration ids of locals assigned, incremented or passed by address inside the given set of CFG blocks"""
+    m = set()
+    for b in body:
+        for e in f.blocks[b].elems:
+            if not isinstance(e, int):
+                continue
+            x = f.nodes.get(e)
+            if x is None:
+                continue
+            if x['k'] in ('BinaryOperator', 'CompoundAssignOperator') and x.get('op') in A.ASSIGN_OPS:
+                l = A.strip_casts(x['ch'][0])
+                if l['k'] == 'DeclRefExpr' and 'd' in l:
+                    m.add(l['d'])
+            elif x['k'] == 'UnaryOperator' and (x.get('op', '').startswith('pre') or x.get('op', '').startswith('post')):
+                l = A.strip_casts(x['ch'][0])
+                if l['k'] == 'DeclRefExpr' and 'd' in l:
+                    m.add(l['d'])
+            elif x['k'] == 'UnaryOperator' and x.get('op') == '&' and x.parent is not None and x.parent.is_call():
+                l = A.strip_casts(x['ch'][0])
+                if l['k'] == 'DeclRefExpr' and 'd' in l:
+                    m.add(l['d'])
+    return m
+
+
+def cursor_bound_rule(res, fx, eng, rule='CURSOR-BOUND'):
+    """raw copy out of `&buffer[cursor]` / `buffer + cursor` inside a loop that advances the cursor: a bound that does not change in the loop (the field's total length)
+    says nothing about what is left after earlier items; the dominating bound must depend on something the loop updates (the remaining count, or the cursor)."""
+    res.rule(rule, 'a raw memcpy of a wire-derived length from buffer[cursor] inside a loop that advances the cursor is bounded by a quantity the loop updates (bytes left / cursor), not by a loop-invariant total', floor=1)
+    for f in sorted(fx.funcs.values(), key=lambda f: (f.file, f.line, f.id)):
+        if not f.full or not TAINT_FILES.search(f.file) or re.search(T.RE_READER, f.q):
+            continue
+        loops = None
+        ft = None
+        for c in f.walk():
+            if not (c.is_call() and (c.get('q') or '') in ('memcpy', 'memmove') and len(c.args()) == 3):
+                continue
+            src, n = c.args()[1], c.args()[2]
+            ft = ft or eng.ft(f)
+            if not ft.et(n):
+                continue
+            if loops is None:
+                loops = C.natural_loops(f)
+            p = P_pos(f, c)
+            if p is None:
+                continue
+            inl = [body for (h, body) in loops if p[0] in body]
+            if not inl:
+                continue
+            # the innermost enclosing loop that advances a variable of the source address
+            mod = set()
+            for body in sorted(inl, key=len):
+                mod = loop_modified_vars(f, body)
+                if ft.vars_in(src) & mod:
+                    break
+            cursors = ft.vars_in(src) & mod
+            if not cursors:
+                continue
+            lenvars = ft.vars_in(n)
+            how = None
+            seen_bound = None
+            for (cn, truth) in ft.guards_at(c):
+                for (a, why, cls, b) in ft.cond_upper_bounds(cn, truth):
+                    if lenvars and lenvars <= ft.vars_in(a) and ft.monotone(a):
+                        seen_bound = b
+                        if (ft.vars_in(b) | ft.vars_in(a)) & mod - lenvars:
+                            how = why
+            res.ob(rule, f.where(c), '%s: copy of `%s` bytes from %s (cursor %s advances in the loop) is bounded by a loop-updated quantity' % (f.q, n.text(30), src.text(40), ','.join(sorted(x.get('n') or '?' for x in src.walk() if x.get('d') in cursors))),
+                   bool(how), how=how, function=f.q, key='%s|%s|%s' % (rule, f.q, n.text(30)),
+                   message='%s: `%s` bytes are copied from `%s` inside a loop that advances the cursor, but the only dominating bound on the length (`%s`) never changes in the loop: '
+                           'a later item can extend past the end of the input' % (f.q, n.text(30), src.text(50), seen_bound.text(40) if seen_bound is not None else 'none'))
+
+
+def P_pos(f, n):
+    p = f.pos(n['i'])
+    if p is None:
+        for a in n.ancestors():
+            p = f.pos(a['i'])
+            if p is not None:
+                break
+    return p
+
+
+def dest_capacity_rule(res, fx, eng, rule='DEST-CAPACITY'):
+    """memcpy/memmove of a wire-derived number of bytes INTO a ByteBuffer (dest = B.GetBuffer() [+ off]): besides the source-side bound that TAINT demands, the length
+    (together with the offset) must be bounded by the capacity of that very buffer: a dominating comparison whose bound side is B.GetNumBytes() (or a local holding it)."""
+    res.rule(rule, 'every copy of a wire-derived number of bytes into `B.GetBuffer() + off` is dominated by a comparison of (off +) length against B.GetNumBytes() of the same buffer object', floor=1)
+    for f in sorted(fx.funcs.values(), key=lambda f: (f.file, f.line, f.id)):
+        if not f.full or not TAINT_FILES.search(f.file) or re.search(T.RE_READER, f.q):
+            continue
+        ft = None
+        for c in f.walk():
+            if not (c.is_call() and (c.get('q') or '') in ('memcpy', 'memmove') and len(c.args()) == 3):
+                continue
+            dst, n = c.args()[0], c.args()[2]
+            gb = [x for x in dst.walk() if x['k'] == 'CXXMemberCallExpr' and (x.get('q') or '') == 'muscle::ByteBuffer::GetBuffer' and x.receiver() is not None]
+            if not gb:
+                continue
+            ft = ft or eng.ft(f)
+            if not ft.et(n):
+                continue
+            R = T.P_canon(gb[0].receiver())
+            lenvars = ft.vars_in(n)
+            offvars = set()
+            d0 = A.strip_casts(dst)
+            if d0['k'] == 'BinaryOperator' and d0.get('op') == '+':
+                offvars = ft.vars_in(d0['ch'][1]) - ft.vars_in(gb[0])
+
+            def is_capacity(b, depth=0):
+                b = A.strip_casts(b)
+                if b['k'] == 'CXXMemberCallExpr' and (b.get('q') or '') == 'muscle::ByteBuffer::GetNumBytes' and b.receiver() is not None and T.P_canon(b.receiver()) == R:
+                    return True
+                if b['k'] == 'DeclRefExpr' and depth < 2:
+                    d = ft.single_def(b)
+                    return d is not None and is_capacity(d, depth + 1)
+                return False
+            how = None
+            for (cn, truth) in ft.guards_at(c):
+                for (a, why, cls, b) in ft.cond_upper_bounds(cn, truth):
+                    if is_capacity(b) and lenvars and lenvars <= ft.vars_in(a) and (not offvars or offvars <= ft.vars_in(a)) and ft.monotone(a):
+                        arith = [x for x in A.strip_casts(a).walk() if x['k'] == 'BinaryOperator' and x.get('op') in ('+', '*') and ft.et(x)]
+                        if all(ft.overflow_checked(x, c) for x in arith):
+                            how = why
+            res.ob(rule, f.where(c), '%s: copy of `%s` bytes into %s stays inside that buffer' % (f.q.split('::')[-2] if '::' in f.q else f.q, n.text(40), dst.text(50)), bool(how), how=how, function=f.q,
+                   key='%s|%s|%s:%s' % (rule, f.q, R[:60], n.text(30)),
+                   message='%s: `%s` wire-declared bytes are copied to `%s` but no dominating comparison bounds %s by the capacity (GetNumBytes()) of that buffer: heap overflow write'
+                           % (f.q, n.text(40), dst.text(60), ' + '.join(sorted(set([n.text(30)] + ([A.strip_casts(dst)['ch'][1].text(30)] if offvars else []))))))
+
+
 def primitive_rule(res, fx, rule='PRIMITIVE'):
     """obligations on the reader primitives: every parameter that reaches memcpy / pointer advance inside DataUnflattenerHelper is size-checked there;
     RealSizeChecker::IsSizeOkay is `n <= avail`; DataUnflattenerReadLimiter clamps with muscleMin; no Unchecked unflattener in the parse closure."""
@@ -172,7 +301,9 @@ def run(res, tier):
     fx = common.load_all(res, tier, with_c=True)
     cg = CallGraph(fx)
     res.functions_analysed = sum(1 for f in fx.funcs.values() if f.full and TAINT_FILES.search(f.file))
-    taint_rule(res, fx)
+    eng = taint_rule(res, fx)
+    dest_capacity_rule(res, fx, eng)
+    cursor_bound_rule(res, fx, eng)
     primitive_rule(res, fx)
     entries = []
     missing = []
